@@ -90,6 +90,8 @@ W["compute_jth_combination"] = dict(
         ghost_end=["P = P * n"],
         hints=["k == l - i", "Wn[i - 1] == pre(P)", "P == pre(P) * n", "pre(j) == j * n + pre(j) % n",
                "(pre(j) % n) * pre(P) >= 0", "(pre(j) % n) * pre(P) <= (n - 1) * pre(P)", "j * P == j * n * pre(P)",
+               "combination[l - i] == pre(j) % n",
+               "sum(t, 0, i - 1, combination[l - 1 - t] * Wn[t]) == pre(sum(t, 0, i, combination[l - 1 - t] * Wn[t]))",
                "sum(t, 0, i, combination[l - 1 - t] * Wn[t]) == pre(sum(t, 0, i, combination[l - 1 - t] * Wn[t])) + (pre(j) % n) * pre(P)"])},
     ensures=["len(result) == l", "forall(t, 0, l, 0 <= result[t] and result[t] < n)",
              "len(Wn) == l", "implies(l > 0, Wn[0] == 1)", "forall(t, 0, l - 1, Wn[t + 1] == Wn[t] * n)",
@@ -121,6 +123,8 @@ W["compute_jth_inversion_sequence"] = dict(
         hints=["k == n - (i - 1)", "Wf[i - 1] == pre(P)", "P == pre(P) * k",
                "implies(i > 1, Wf[i - 1] == Wf[i - 2] * (n - (i - 2)))",
                "(pre(j) % k) * pre(P) >= 0", "(pre(j) % k) * pre(P) <= (k - 1) * pre(P)", "j * P == j * k * pre(P)",
+               "inversion[i - 1] == pre(j) % k",
+               "sum(t, 0, i - 1, inversion[t] * Wf[t]) == pre(sum(t, 0, i, inversion[t] * Wf[t]))",
                "sum(t, 0, i, inversion[t] * Wf[t]) == pre(sum(t, 0, i, inversion[t] * Wf[t])) + (pre(j) % k) * pre(P)"])},
     ensures=["len(result) == m", "forall(t, 0, m, 0 <= result[t] and result[t] < n - t)",
              "len(Wf) == m", "implies(m > 0, Wf[0] == 1)", "forall(t, 0, m - 1, Wf[t + 1] == Wf[t] * (n - t))",
